@@ -8,9 +8,12 @@ pub mod c03;
 pub mod c05;
 pub mod c08;
 pub mod c13;
+pub mod c15;
+pub mod c17;
+pub mod c18;
 
 use crate::PropDef;
 
 pub fn all() -> Vec<PropDef> {
-    vec![c01::def(), c02::def(), c03::def(), c05::def(), c08::def(), c13::def()]
+    vec![c01::def(), c02::def(), c03::def(), c05::def(), c08::def(), c13::def(), c15::def(), c17::def(), c18::def()]
 }
